@@ -157,6 +157,10 @@ def apply (cfg : Cfg) (l : LSt) : LOp → Option (LSt × Option Nat × Out)
     -- `roundTrip` sits in `waitDone()` with the response in hand (body-less response, no request
     -- body): cancelling makes it race with `cleanupWriteRequest` closing `donec`
     if c.rt = .waiting && c.gotHead && !c.hasPipe && !c.upload && c.phase != .done then none else
+    -- still queueing for `reqHeaderMu`: from outside nothing tells whether its goroutine has
+    -- reached the `select` yet, so whether it sees the cancellation or a later release first is
+    -- up to the Go scheduler (the micro-model has both orders; the lane cannot force one)
+    if c.phase == .wantMu then none else
     let r := step cfg l.s (.cancel k)
     if r.2 = .ignored then none else some ({ l with s := r.1 }, none, .none)
   | .closeBody k =>
